@@ -321,9 +321,32 @@ def ks1(P, C):
         C.ob("KS-1", name, "short-key-value-limit", init == [68], f.where(), "a standard card leaves 68 characters for a string value: %s" % init)
 
 
+def km1(P, C):
+    C.rule("KM-1", "every search of the key store (get_aux_value, remove_key, write_key) matches keys with the same exact comparison "
+           "strcmp(key, stored key) == 0 over all naux entries: the sibling implementations of 'find this key' agree", floor=3)
+    sigs = {}
+    for nm in ("get_aux_value", "remove_key", "write_key"):
+        for f in [g for g in P.fns(nm) if g.cls == ts.CLS and g.unit == "driver"]:
+            name = ts.fshort(f)
+            hits = []
+            for i, cal in f.calls():
+                if cal and cal["name"] in ("strcmp", "strncmp", "strcasecmp", "memcmp", "strncasecmp") and "aux[" in f.render(i):
+                    par = f.parent[i]
+                    while par >= 0 and f.k(par) in core.IMPLICIT_ONLY:
+                        par = f.parent[par]
+                    cmp0 = par >= 0 and f.k(par) == "BinaryOperator" and f.nodes[par]["op"] == "==" and f.nodes[f.strip(f.nodes[par]["ch"][1])].get("cv") == 0
+                    loop = next((a for a in f.ancestors(i) if f.k(a) == "ForStmt"), None)
+                    lc = f.alpha(f.nodes[loop]["cond"])[0].replace(" ", "") if loop is not None else ""
+                    hits.append((cal["name"], [f.alpha(a)[0].replace(" ", "") for a in f.args(i)], cmp0, lc))
+            ok = len(hits) == 1 and hits[0][0] == "strcmp" and hits[0][1] == ["$0", "(&(*aux[v0][0]))"] and hits[0][2] and hits[0][3] == "(v0<naux)"
+            sigs[name] = hits
+            C.ob("KM-1", name, "exact-match", ok, f.where(), "key search: %s" % hits)
+
+
 def run(P, C):
     api1(P, C)
     ks1(P, C)
+    km1(P, C)
     ts1w(P, C)
     fs4(P, C)
     fs5(P, C)
